@@ -325,7 +325,14 @@ func (t Table) createSQL() string {
 func (t Table) selectSQL() string {
 	var csql []string
 	for _, c := range t.columns {
-		csql = append(csql, quoteIdentifier(c.name))
+		name := quoteIdentifier(c.name)
+		switch strings.ToLower(c.ctype) {
+		case "date", "datetime", "timestamp":
+			// the driver parses a bare column of these types into a time.Time, which would be
+			// written back in another format; read as an expression it is copied verbatim
+			name = `+` + name + ` AS ` + name
+		}
+		csql = append(csql, name)
 	}
 	query := `SELECT ` + strings.Join(csql, `,`) + ` FROM "` + t.Name + `";`
 	return query
